@@ -13,7 +13,7 @@ import (
 func drivers(quick bool) []conc.Driver {
 	budget := 90 * time.Second
 	if !quick {
-		budget = 20 * time.Minute
+		budget = 10 * time.Minute
 	}
 	cfg := vrt.Config{PreemptBound: -1, Budget: budget}
 	scs := []mdrv.Scenario{
@@ -35,7 +35,7 @@ func drivers(quick bool) []conc.Driver {
 	var ds []conc.Driver
 	for _, s := range scs {
 		s := s
-		ds = append(ds, conc.Driver{Name: s.Name(), Cfg: cfg, Mk: func() vrt.Run { return s.Mk() }, Fallback: []int{0, 1, 2, 3}})
+		ds = append(ds, conc.Driver{Name: s.Name(), Cfg: cfg, Mk: func() vrt.Run { return s.Mk() }, Fallback: []int{0, 1, 2, 3, 4, 5, 6}})
 	}
 	return ds
 }
